@@ -1,7 +1,7 @@
 (* C07 -- model of the CPU-times / CPU-percent code of psutil.
    Transcribed from
      psutil/_pslinux.py : set_scputimes_ntuple (253-275), cpu_times (546-559),
-                          per_cpu_times (562-579), cpu_stats (653-675)
+                          per_cpu_times (562-579)   [cpu_stats (653-675) is left to C19]
      psutil/__init__.py : _last_cpu_times* (1698-1710, 1847-1848), _cpu_tot_time,
                           _cpu_busy_time, _cpu_times_deltas (1713-1766),
                           cpu_percent (1769-1842), cpu_times_percent (1851-1907),
@@ -58,29 +58,6 @@ Definition cpu_times (clk : positive) (nf : nat) (content : bytes) : outcome (li
 (* _pslinux.per_cpu_times(): skip the first line, every later line starting with b"cpu" *)
 Definition per_cpu_times (clk : positive) (nf : nat) (content : bytes) : outcome (list (list Q)) :=
   mapM (line_fields clk nf) (filter (prefixb cpu_label) (tl (lines_keep content))).
-
-(* ------------------------------------------------------------ cpu_stats *)
-(* int(line.split()[1]) for the first-matching-wins chain ctxt / intr / softirq;
-   stops reading once all three are known; a missing one stays None *)
-Definition second_int (line : bytes) : outcome Z :=
-  do t <- of_option IndexError (nth_error (split_ws line) 1); py_int t.
-
-Fixpoint cpu_stats_loop (ls : list bytes) (c i s : option Z) : outcome (option Z * option Z * option Z) :=
-  match ls with
-  | [] => Val (c, i, s)
-  | line :: r =>
-    do cis <- (if prefixb (bs "ctxt") line then do v <- second_int line; Val (Some v, i, s)
-               else if prefixb (bs "intr") line then do v <- second_int line; Val (c, Some v, s)
-               else if prefixb (bs "softirq") line then do v <- second_int line; Val (c, i, Some v)
-               else Val (c, i, s));
-    let '(c', i', s') := cis in
-    match c', i', s' with
-    | Some _, Some _, Some _ => Val (c', i', s')
-    | _, _, _ => cpu_stats_loop r c' i' s'
-    end
-  end.
-Definition cpu_stats (content : bytes) : outcome (option Z * option Z * option Z) :=
-  cpu_stats_loop (lines_keep content) None None None.
 
 (* ------------------------------------------------------------ arithmetic *)
 Definition qsum (l : list Q) : Q := fold_right Qplus 0%Q l.          (* sum(times) *)
@@ -186,8 +163,10 @@ Definition gen_call {S R} (read : nat -> bytes -> outcome S) (falsy : S -> bool)
     end
   end.
 
-Inductive fn := FPercent | FTimesPercent.
+Inductive fn := FTimes | FPercent | FTimesPercent.   (* cpu_times / cpu_percent / cpu_times_percent *)
 Inductive sres :=
+| RTimes (l : list Q)             (* cpu_times() *)
+| RTimesP (l : list (list Q))     (* cpu_times(percpu=True) *)
 | RNum (q : Q)                    (* cpu_percent() *)
 | RNums (l : list Q)              (* cpu_percent(percpu=True) *)
 | RRow (l : list Q)               (* cpu_times_percent() *)
@@ -202,6 +181,20 @@ Record sys_state := {
 Definition sys_init : sys_state :=
   {| memo := None; last1 := []; lastp1 := []; last2 := []; lastp2 := [] |}.
 
+(* the state right after "import psutil" executed by thread [mt] while /proc/stat read [c0]:
+     _pslinux:  set_scputimes_ntuple("/proc")                         (memoised layout)
+     __init__:  try: _last_cpu_times = {ident: cpu_times()}           except Exception: {}
+                try: _last_per_cpu_times = {ident: cpu_times(percpu=True)}   except Exception: {}
+                _last_cpu_times_2 = _last_cpu_times.copy(); _last_per_cpu_times_2 = _last_per_cpu_times.copy() *)
+Definition sys_import (clk : positive) (mt : Z) (c0 : bytes) : sys_state :=
+  let nf := nf_of c0 in
+  let m1 := match cpu_times clk nf c0 with Val s => [(mt, s)] | _ => [] end in
+  let mp := match per_cpu_times clk nf c0 with Val s => [(mt, s)] | _ => [] end in
+  {| memo := Some nf; last1 := m1; lastp1 := mp; last2 := m1; lastp2 := mp |}.
+(* [None] = maps emptied and layout cache cleared (what the harness does between scripts) *)
+Definition sys_start (clk : positive) (imp : option (Z * bytes)) : sys_state :=
+  match imp with Some (mt, c0) => sys_import clk mt c0 | None => sys_init end.
+
 Record event := { e_tid : Z; e_fn : fn; e_percpu : bool; e_iv : ival; e_k1 : bytes; e_k2 : bytes }.
 
 Definition never {A} (_ : A) : bool := false.          (* a namedtuple with >= 7 fields is truthy *)
@@ -210,6 +203,14 @@ Definition is_nil {A} (l : list A) : bool := match l with [] => true | _ => fals
 Definition step (clk : positive) (st : sys_state) (e : event) : sys_state * outcome sres :=
   let t := e_tid e in let iv := e_iv e in let k1 := e_k1 e in let k2 := e_k2 e in
   match e_fn e, e_percpu e with
+  | FTimes, false =>        (* psutil.cpu_times(): no interval, no map; fixes the layout on first use *)
+    let nf := ensure_nf (memo st) k1 in
+    ({| memo := Some nf; last1 := last1 st; lastp1 := lastp1 st; last2 := last2 st; lastp2 := lastp2 st |},
+     omap RTimes (cpu_times clk nf k1))
+  | FTimes, true =>
+    let nf := ensure_nf (memo st) k1 in
+    ({| memo := Some nf; last1 := last1 st; lastp1 := lastp1 st; last2 := last2 st; lastp2 := lastp2 st |},
+     omap RTimesP (per_cpu_times clk nf k1))
   | FPercent, false =>
     let '(mm, m, r) := gen_call (cpu_times clk) never calc_percent (memo st) (last1 st) t iv k1 k2 in
     ({| memo := mm; last1 := m; lastp1 := lastp1 st; last2 := last2 st; lastp2 := lastp2 st |}, omap RNum r)
